@@ -102,6 +102,7 @@ Proof. intros H. split; [now apply ext_sched_nodes | apply exn_sched_nodes]. Qed
 Lemma xext_add_ev e x : is_trans x = false -> xext e (add_ev e x).
 Proof. intros H. split; [now apply ext_add_ev | reflexivity]. Qed.
 Lemma xext_upsert e i : xext e (upsert e i). Proof. split; [apply ext_upsert | reflexivity]. Qed.
+Lemma xext_persist e : xext e (persist e). Proof. split; [apply ext_persist | reflexivity]. Qed.
 Lemma xext_tmod e i f : keeps f -> xext e (tmod e i f). Proof. intros K. split; [now apply ext_tmod | reflexivity]. Qed.
 Lemma xext_set_data e i v : xext e (set_data e i v). Proof. apply xext_tmod; intros y; repeat split; reflexivity. Qed.
 Lemma xext_set_silent e i b : xext e (set_silent e i b). Proof. apply xext_tmod; intros y; repeat split; reflexivity. Qed.
@@ -318,6 +319,8 @@ Lemma G_trans a b c : G a b -> G b c -> G a c.
 Proof. intros [_ L1] [H2 L2]. split; [exact H2 | lia]. Qed.
 Lemma G_xext e e' : J e -> xext e e' -> G e e'.
 Proof. intros H X. split; [eapply J_xext; eauto | apply (ext_len _ _ (proj1 X))]. Qed.
+Lemma G_persist e e' : G e e' -> G e (persist e').
+Proof. intros H. eapply G_trans; [exact H|]. apply G_xext; [apply H | apply xext_persist]. Qed.
 Lemma G_set_state site e i s : J e -> legal (st e i) s || revive (st e i) s = true -> G e (set_state site e i s).
 Proof. intros H L. split; [now apply J_set_state | rewrite ntasks_set_state; lia]. Qed.
 Lemma G_set_err site e i c : J e -> legal (st e i) SError = true -> G e (set_err site e i c).
@@ -724,6 +727,7 @@ Proof.
     apply G_xext; [exact Jq | now apply xext_add_ev]. }
   assert (R0 : i < ntasks e0) by (destruct G0; lia).
   destruct (is_completed (st e0 i)) eqn:Ec; [exact G0|].
+  apply G_persist. unfold exec_or_fail. cbv zeta.
   destruct (exec_spec (fuel_of e0) [] e0 i (proj1 G0) R0 Ec) as [G1 | (Hx & HI1 & HQ1 & Hf1 & HL1)].
   - pose proof G1 as ((_ & HX1 & _) & _). rewrite HX1. exact (G_trans _ _ _ G0 G1).
   - rewrite Hx. set (e1 := exec (fuel_of e0) [] e0 i) in *.
@@ -733,6 +737,6 @@ Proof.
       assert (Hs : st (with_exn e1 false) i = st e1 i) by reflexivity. rewrite Hs.
       destruct Hf1 as [-> | ->]; reflexivity. }
     eapply G_trans; [exact G0|]. eapply G_trans; [split; [exact J2 | unfold ntasks in *; simpl; exact HL1]|].
-    eapply G_trans; [exact Gs|]. apply mainEE; [apply Gs|]. destruct Gs as [_ L]. unfold ntasks in *. simpl in *. lia.
+    eapply G_trans; [exact Gs|]. apply mainEE; [apply Gs|]. destruct Gs as [_ L]. unfold set_err in *. rewrite ntasks_set_state, ntasks_tmod in *. unfold ntasks in *. cbn [with_exn tasks] in *. lia.
 Qed.
 
